@@ -290,7 +290,8 @@ func (r *DeviceAuthorizationState) GetAMR() []string {
 
 func (r *DeviceAuthorizationState) GetAudience() []string {
 	if !slices.Contains(r.Audience, r.ClientID) {
-		r.Audience = append(r.Audience, r.ClientID)
+		// a getter must not write to the (possibly shared, storage owned) state
+		return append(slices.Clone(r.Audience), r.ClientID)
 	}
 	return r.Audience
 }
